@@ -134,13 +134,25 @@ impl<'c, 'r, C: ZCol> Visitor<C> for V<'c, 'r> {
                 // clip area cuts through the drawable
                 _ => rect(cx - (h / 3 % 7) as i32, bb.top_left.y - 2, bb.size.width / 2 + 3, bb.size.height + 1),
             };
+            // every sixth view is degenerate: an area of zero width and/or height inside the drawable,
+            // or an area wholly outside the parent (a panel collapsed or scrolled away)
+            let area = match h / 7 % 24 {
+                0 => rect(cx, bb.top_left.y - 1, 0, bb.size.height + 2),
+                1 => rect(bb.top_left.x - 1, cy, bb.size.width + 2, 0),
+                2 => rect(cx, cy, 0, 0),
+                3 => rect(5000 + (h % 5) as i32, -7000, 30, 40),
+                _ => area,
+            };
+            if h / 7 % 24 < 4 {
+                ctx.count("draws_through_degenerate_adapter_areas", 1);
+            }
             let off = Point::new((h / 5 % 41) as i32 - 20, (h / 205 % 41) as i32 - 20);
             let adapter_text = || match kind_ad {
                 0 => format!("cropped({:?})", egmon::target::rt(&area)),
                 1 => format!("clipped({:?})", egmon::target::rt(&area)),
                 _ => format!("translated(({},{}))", off.x, off.y),
             };
-            let case = || format!("{} colour {} through {} of a parent with box {:?}", desc.text(), C::name(), adapter_text(), egmon::target::rt(&parent_box));
+            let case = || format!("{} colour {} through {} of a parent with box {:?}{}", desc.text(), C::name(), adapter_text(), egmon::target::rt(&parent_box), ["; draw() parents consume with for_each", "; pixels() parent consumes with for_each", ""][(h / 11 % 3) as usize]);
             macro_rules! through {
                 ($parent:expr, |$t:ident| $body:expr) => {
                     match kind_ad {
@@ -164,6 +176,10 @@ impl<'c, 'r, C: ZCol> Visitor<C> for V<'c, 'r> {
             let mut b = NativeTarget::<C>::new(parent_box);
             a.log.budget = budget;
             b.log.budget = budget;
+            // every third pair of parents consumes what it receives by internal iteration (for_each)
+            let internal = h / 11 % 3 == 0;
+            a.log.internal_iteration = internal;
+            b.log.internal_iteration = internal;
             let ra = through!(a, |t| d.draw_on(&mut t));
             let rb = through!(b, |t| d.draw_on(&mut t));
             if !(a.log.over_budget || b.log.over_budget) {
@@ -175,6 +191,7 @@ impl<'c, 'r, C: ZCol> Visitor<C> for V<'c, 'r> {
                 }
                 if let Some(px) = d.pixels_vec(budget as usize + 1) {
                     let mut c = IterTarget::<C>::new(parent_box);
+                    c.log.internal_iteration = h / 11 % 3 == 1;
                     let _ = through!(c, |t| t.draw_iter(px.iter().copied()));
                     if !a.log.map.same(&c.log.map) {
                         ctx.violation(format!("{}|adapter|draw-vs-pixels|{}", kind, diff_class(&a.log.map, &c.log.map)), case, || {
